@@ -515,11 +515,18 @@ SPEC["C19"] = {
          known findings of C19).
    A disabled filter: getfilter returns the tree inside the wrapper, which is the tree that was built (C12's
    refinement: op_get on a disabled entry), so (a) and (b) apply unchanged (the example evaluates exactly that).
-   Not proved: the read-back on RELOADED sets (trees built by the parser take the list branch of args_as_tuple);
-   address conditions, notsize, values with commas (known findings).  These are evaluated on the implementation
-   and, for the model, by the differential run on reloaded sets.""",
-    "imports": TEXT_IMPORTS + "From SV Require Import Tables ArgCheck ArgSpec Machine Printer GenTables Ops Build BuildFacts BuildSet Read ReadFacts FactoryConsts ConstFacts.\n",
+     (d) reloaded sets (factory/ReadReload.v): the parser stores string lists as lists, so args_as_tuple takes its
+         list branch (re-render, split again); for the same forms and value class the tree the parser builds for the
+         filter's script is read back exactly as supplied (C19_parsed_tree_read_back), and for every non-empty set of
+         good filters saved by FiltersSet.tosieve the parsed script's filters -- out of their `if false` wrapper
+         when disabled -- are read back as they were defined (C19_reloaded_read_back; uses that the tree of a
+         script of the grammar is determined by the script, sieve/WfFun.v).
+   Not proved: get_filter_actions on reloaded sets; address conditions, notsize, values with commas (known
+   findings).  These are evaluated on the implementation and, for the model, by the differential runs.""",
+    "imports": TEXT_IMPORTS + "From SV Require Import Tables ArgCheck ArgSpec Machine Printer GenTables Ops Build BuildFacts BuildSet Read ReadFacts ReadReload FactoryConsts ConstFacts.\n",
     "theorems": [
+        ("C19_reloaded_read_back", "ReadReload.reload_read_back", "on a set reloaded from its rendered script: the parser accepts the text and every filter of the parsed script (taken out of its `if false` wrapper when disabled, as getfilter does) is read back as it was defined"),
+        ("C19_parsed_tree_read_back", "ReadReload.factory_parsed_filter", "the tree the PARSER builds for the script of a documented filter (string lists stored as lists: the list branch of args_as_tuple) is read back exactly as supplied"),
         ("C19_readable_classes", "ConstFacts.readable_is_the_tuple", "get_filter_conditions reads exactly the command classes listed in the source on this run"),
         ("C19_negation_folding_classes", "ConstFacts.fold_not_only_there", "the negation is folded only for the names the source lists"),
         ("C19_matchtype_classes", "ConstFacts.matchtype_classes_ok", "get_filter_matchtype tests the classes the source lists"),
